@@ -307,6 +307,7 @@ func (e *Enc) applyContract(st *State, ct *Contract, c *ssa.CallCommon, key stri
 		e.assume(st.reach, t)
 	}
 	if ct.NoReturn {
+		e.callsNoReturn = true
 		st.reach = TFalse
 	}
 	e.traceAfter(st, key, sc2)
@@ -842,6 +843,19 @@ func (e *Enc) goStmt(st *State, ins *ssa.Go) {
 			}
 			sc := e.specCtx(st, e.pre)
 			sc.preferLocals = true
+			// the operands handed to the new goroutine: goarg0.. (0 when absent), ngoargs
+			sc.vars["ngoargs"] = tv(I(int64(len(c.Args))))
+			sc.vtypes["ngoargs"] = types.Typ[types.Int]
+			for j := 0; j < 6; j++ {
+				n := fmt.Sprintf("goarg%d", j)
+				if j < len(c.Args) {
+					sc.vars[n] = tv(e.asTerm(st, e.val(st, c.Args[j])))
+					sc.vtypes[n] = c.Args[j].Type()
+				} else {
+					sc.vars[n] = tv(I(0))
+					sc.vtypes[n] = types.Typ[types.Int]
+				}
+			}
 			t, err := sc.evalBool(cs.Clause.Expr)
 			if err != nil {
 				e.unsupported = fmt.Sprintf("spawnsite: %q: %v", cs.Clause.Text, err)
